@@ -271,6 +271,7 @@ void wipe(const std::string& dir, bool removeSelf) {
 
 // ---------------------------------------------------------------- the world of mode "fs"
 struct World {
+  bool links = false;   // see populate()
   std::string base;  // <scratch>/w
   std::string cwd;   // <scratch>/w/cwd  (the process cwd while mode fs runs)
   void populate() {
@@ -292,7 +293,12 @@ struct World {
     static const char* const dirs[] = {"r", "r/a", "r/a/b", "o", "cwd/a", "cwd/r"};
     static const char* const files[] = {"r/a/b/c", "r/a/f", "r/ab", "r/z", "o/x", "o/y", "x", "cwd/a/k", "cwd/r/a", "cwd/r/q", "cwd/k"};
     for (auto* x : dirs) mkdir((base + "/" + x).c_str(), 0755);
-    for (auto* x : files) writeFile(base + "/" + x, std::string("content of ") + x + "\n");
+    for (auto* x : files) {
+      // link flavour: /r/ab is a symbolic link to the non-empty directory /o (which lies outside the root /r):
+      // removing the stale path means removing the LINK
+      if (links && std::string(x) == "r/ab") { if (symlink("../o", (base + "/r/ab").c_str()) != 0) {} continue; }
+      writeFile(base + "/" + x, std::string("content of ") + x + "\n");
+    }
   }
   void snap(const std::string& dir, const std::string& rel, std::map<std::string, std::string>& out) const {
     DIR* d = opendir(dir.c_str());
@@ -580,6 +586,7 @@ struct Walker {
   Judge& J;
   bool fs;
   bool judgeSecond = true;  // false: the second runs of these histories are judged by another work kind already
+  bool links = false;       // populate the world in its link flavour
   List mapList(const List& l) const {
     if (!fs) return l;
     List o;
@@ -591,7 +598,7 @@ struct Walker {
     List cur = mapList(h.back()), tr = mapList(roots);
     bool judged = h.size() >= 3 || (h.size() == 2 && judgeSecond);
     std::map<std::string, std::string> before, after;
-    if (fs && judged) { env.world.populate(); before = env.world.snapshot(); }
+    if (fs && judged) { env.world.links = links; env.world.populate(); before = env.world.snapshot(); }
     runTool(env, cur, tr, fs, out);
     ++J.builds;
     if (!judged && h.size() >= 2) return out.status == "ok";  // judged elsewhere
@@ -699,6 +706,7 @@ int main(int argc, char** argv) {
       "'ordered list' = sequence of <=2 alphabet paths, order and repetition significant (157 lists); 'set' = duplicate-free list in one fixed order (79). "
       "quick: mem = ALL (previous, current) ordered lists (157 x 157) x <=1 root (6), plus ALL (previous set, current set) (79 x 79) x ALL sets of two distinct roots (10) - together every (previous, current, roots) triple of SETS with <=2 paths and <=2 roots; "
       "fs (real tmpfs tree, snapshot before/after) = ALL (previous ordered list, current of <=1 path, <=1 root) = 157 x 13 x 6; "
+      "fs link flavour (/r/ab is a symbolic link to the non-empty directory /o outside the root /r): ALL (previous ordered list containing /r/ab, current of <=1 path, <=1 root); "
       "plus mem ALL histories of THREE lists (first of <=1 path (13), second a set (79), third of <=1 path (13)) x <=1 root (6), judged at the third run. "
       "thorough: mem = ALL (previous, current, roots) ordered lists 157 x 157 x 31, plus ALL histories of THREE lists (first of <=1 path (13), second and third sets (79 x 79)) x <=1 root (6), "
       "judged at the third run (their second runs are part of the 157 x 157 x 31 block); "
@@ -780,6 +788,13 @@ int main(int argc, char** argv) {
     for (size_t i = 0; i < P1.size(); ++i)
       for (size_t r = 0; r < R1.size(); ++r) items.push_back({7, i, r});
   }
+  //  8 fs   link flavour (/r/ab -> ../o): previous in PO containing /r/ab, current of <= 1 path, <= 1 root   (both)
+  for (size_t i = 0; i < PO.size(); ++i) {
+    bool has = false;
+    for (auto& x : PO[i]) if (x == "/r/ab") has = true;
+    if (!has) continue;
+    for (size_t r = 0; r < R1.size(); ++r) items.push_back({8, i, r});
+  }
   if (args.thorough()) {
     for (size_t i = 0; i < PU.size(); ++i)
       for (size_t r = 0; r < R2only.size(); ++r) items.push_back({5, i, r});
@@ -818,6 +833,7 @@ int main(int argc, char** argv) {
     case 5: { Walker w{env, J, true}; w.walk(PU[it.l1], R2only[it.roots], PU, nullptr); break; }
     case 6: { Walker w{env, J, true}; w.walk(PO[it.l1], R1[it.roots], P2only, nullptr); break; }
     case 7: { Walker w{env, J, false, false}; w.walk(P1[it.l1], R1[it.roots], PU, &P1); break; }
+    case 8: { Walker w{env, J, true, true, true}; w.walk(PO[it.l1], R1[it.roots], P1, nullptr); break; }
     }
   }
   J.flush();
